@@ -188,13 +188,27 @@ theorem recovery_wrapper {σ : Type} (C : RecoverOpsCorrect ops G den xc valid) 
   have hs : ((s.toNat : ℕ) : ℤ) = s := Int.toNat_of_nonneg (by omega)
   obtain ⟨l, hl, A, hA, vA, dA⟩ := recover_contains C sqrt hsq d e k r s x0 H
   have hall := recover_all_verify C sqrt hsq d e k r s x0 H l hl
-  refine ⟨l, ?_, recover_length_le_two ops sqrt r s e l hl, ⟨A, hA, vA, dA⟩, ?_⟩
+  refine ⟨l.map ops.fromAffine, ?_, ?_, ⟨ops.fromAffine A, List.mem_map_of_mem hA, ?_⟩, ?_⟩
   · unfold fromPublicKeyRecoveryWithDigest
     simp only [hdec, htr, bind, Except.bind, hr, hs, hl]
     exact mapM_fromPublicPoint C l (fun B hB => ⟨(hall B hB).1, (hall B hB).2.1, (hall B hB).2.2.1⟩)
-  · intro B hB
+  · rw [List.length_map]; exact recover_length_le_two ops sqrt r s e l hl
+  · obtain ⟨vF, dF⟩ := C.fromAffine A vA
+    exact ⟨vF, by rw [dF, dA]⟩
+  · intro B' hB'
+    obtain ⟨B, hB, rfl⟩ := List.mem_map.mp hB'
+    obtain ⟨vB, nB, oB, hvB⟩ := hall B hB
+    obtain ⟨vF, dF⟩ := C.fromAffine B vB
+    -- the converted object denotes the same element, hence verifies the same signature
+    have hv : verifies ops (ops.fromAffine B) e r s = .ok true := by
+      obtain ⟨b1, h1, i1⟩ := verifies_spec C.toPointOpsCorrect B vB e r s
+      obtain ⟨b2, h2, i2⟩ := verifies_spec C.toPointOpsCorrect (ops.fromAffine B) vF e r s
+      rw [dF] at i2
+      rw [h1] at hvB; injection hvB with hb1
+      rw [h2]; congr 1
+      exact i2.mpr (i1.mp hb1)
     unfold verifyDigest
-    simp only [htr, hdec, mapDecodeError, bind, Except.bind, hr, hs, (hall B hB).2.2.2]
+    simp only [htr, hdec, mapDecodeError, bind, Except.bind, hr, hs, hv]
     rfl
 
 end Ecdsa
